@@ -31,6 +31,14 @@ def walkDump (p : Program) : String :=
   let t := buildTable p
   "|".intercalate (p.zipIdx.map fun (f, i) => eventsStr (visit t i f)) ++ " oracle=ok"
 
+/-- explicit discriminants on the enumerators of enums without an underlying type (an enumerator may have fields AND a value) -/
+def withDiscriminants (p : Program) : Program :=
+  p.map fun f => { f with defs := f.defs.map fun d =>
+    match d with
+    | .enum doc a c u n none es =>
+      Def.enum doc a c u n none (es.zipIdx.map fun (e, i) => { e with value := if i % 3 == 1 then none else some ⟨false, 10, 3 + 5 * i, false⟩ })
+    | d => d }
+
 def genC20 (tier : Tier) (seed : Nat) (o : Out) : IO Unit := do
   let nProg := if tier == .thorough then 20000 else 1500
   let mut r := Rng.mk' (seed + 20)
@@ -38,8 +46,9 @@ def genC20 (tier : Tier) (seed : Nat) (o : Out) : IO Unit := do
     let cfg : GenCfg := { maxFiles := 1 + i % 3, maxDefs := 1 + i % 5, typeDepth := i % 4,
                           aliasBias := [0, 3, 5, 7].getD ((i / 4) % 4) 0, anonAliasBias := [0, 2, 4].getD ((i / 16) % 3) 0,
                           interleave := (i / 2) % 2 == 1 }
-    let (p, r') := genProgram cfg r
+    let (p0, r') := genProgram cfg r
     r := r'
+    let p := if i % 3 == 2 then withDiscriminants p0 else p0
     let t := buildTable p
     -- the model's own fuel check: walking with twice the fuel must present the same events
     for (f, j) in p.zipIdx do
